@@ -275,11 +275,14 @@ func (e *c13Env) blipPull() (*c13PullObs, bool) {
 					cl.Replica[ro.ID] = ro.Rev
 					ro.Applied = "keep " + ro.Rev + " (known)"
 				}
-			case ro.Flags&4 != 0 && !ro.Deleted:
+			case ro.Flags&4 != 0:
 				// removed from every channel the user can see: the flag alone tells the client to purge; the
 				// revision it asked for may come as a removal body, or as norev when it is no longer current
 				delete(cl.Replica, ro.ID)
 				ro.Applied = "purge(removed from all channels)"
+				if ro.Deleted {
+					ro.Applied = "remove(deleted, removed from all channels)"
+				}
 				for _, x := range byKey[ro.ID+"\x00"+ro.Rev] {
 					if !x.used {
 						x.used = true
